@@ -20,18 +20,19 @@ def main():
     ap.add_argument("prop"); ap.add_argument("k")
     ap.add_argument("--checks"); ap.add_argument("--tier", default="quick")
     ap.add_argument("--src")
+    ap.add_argument("--offset", type=int, default=0)
     a = ap.parse_args()
     prop, k = a.prop, a.k
     wt = Path(a.src or f"/tmp/wt/{prop}")
     out = wt / "out"
-    dest = ROOT / "seeded" / f"{prop}-m{k}"
+    dest = ROOT / "seeded" / f"{prop}-m{int(k) + a.offset}"
     dest.mkdir(parents=True, exist_ok=True)
     if (out / f"mut{k}.diff").exists():
         shutil.copy(out / f"mut{k}.diff", dest / "patch.diff")
         shutil.copy(out / f"demo{k}.py", dest / "demo.py")
         if (out / f"note{k}.txt").exists():
             shutil.copy(out / f"note{k}.txt", dest / "note.txt")
-    meta = {"property": prop, "seed_id": f"{prop}-m{k}", "evaluated_at": time.strftime("%Y-%m-%d %H:%M:%S")}
+    meta = {"property": prop, "seed_id": f"{prop}-m{int(k) + a.offset}", "evaluated_at": time.strftime("%Y-%m-%d %H:%M:%S")}
     env = dict(os.environ, PYTHONPATH=f"{wt}/src")
     # 1. scratch worktree: pristine demo, suite with change, demo with change
     sh("git checkout -- src", cwd=wt)
